@@ -3,6 +3,16 @@ each property.  A unit may serve several properties; its obligations are
 generated once per check run."""
 
 UNITS = {
+    'C15': {
+        'functions': [
+            'penman.graph:_ensure_colon', 'penman.graph:Graph.__init__', 'penman.graph:Graph.top',
+            'penman.graph:Graph.variables', 'penman.graph:Graph.top.setter',
+            'penman.graph:Graph._filter_triples', 'penman.graph:Graph.instances',
+            'penman.graph:Graph.edges', 'penman.graph:Graph.attributes',
+        ],
+        'lemmas': [],
+        'level': 'other',
+    },
     'C13': {
         'functions': [
             'penman.model:Model.has_role', 'penman.model:Model.is_role_inverted',
